@@ -615,7 +615,7 @@ func (g *FnGen) evalCall(env *Env, x *ECall) SVal {
 			}
 		}
 		env.fail("no iterator for loop %d", k)
-	case "unchangedMaps":
+	case "unchangedMaps", "unchanged":
 		// unchangedMaps("map[K]V", e1, ...): every map object of that type other than e1.. (and allocated before the call) is as in the old state
 		ks := w.expandKey(x.Args[0].(*EStr).V)
 		var excl []string
